@@ -13,8 +13,8 @@ tree and writes lean/Vita/C06/GenEvo.lean, plain data over the types of Vita/C06
         select -> recombine -> replace loop, es_.after_generation(), the callback.  Statements
         without effect on population / summary / strategy (timers, terminal, progress and log
         output, stats_.elapsed) are recognised as inert and dropped; anything else is refused.
-  genLoopCond / stepLoopCond / shakeCond, noShakeDefault (`run(unsigned)` passes a `shake` that
-        returns false)
+  genLoopCond / stepLoopCond, noShakeDefault (`run(unsigned)` passes a `shake` that returns false);
+        the shake branch is the token `ifShake <its condition as BX>` + `shakeBody`
   one `List GE` per strategy function (selection::tournament/alps/random, replacement::tournament/
         family_competition/alps incl. try_add_to_layer / try_move_up_layer, basic_alps_es::
         after_generation, std_es::stop_condition): every assignment, non-const local, call
@@ -424,6 +424,7 @@ class RunSkel:
     def __init__(self):
         self.f = Fn("evolution<T,ES>::run")
         self.res = {"shakeBody": []}
+        self.has_shake = False
 
     def inert_effects(self, n):
         """True when the statement has no effect the model tracks"""
@@ -460,6 +461,14 @@ class RunSkel:
                     elif t == "es_.recombination.run(%s)" % self.res.get("parentsVar", "?"):
                         out.append("recombine")
                         self.res["offVar"] = v.get("name")
+                    elif "shake(" in t:
+                        # `const bool shaken(shake(stats_.gen));`: a name for the call – conditions are
+                        # printed with the initialiser in its place; anything else that calls the functor
+                        # into a local is not understood
+                        ty = v.get("type", {}).get("qualType", "")
+                        if ty.replace(" ", "") != "constbool":
+                            raise Refuse("evolution::run: local `%s` (%s) initialised by `%s`" % (v.get("name"), ty, t))
+                        f.inline[v.get("id")] = init[0]
                     elif "es_." in t or "pop_" in t or "eva_(" in t:
                         raise Refuse("evolution::run: local `%s` initialised by `%s`" % (v.get("name"), t))
                     # timers, the `stop` flag, `before`: inert locals
@@ -503,10 +512,18 @@ class RunSkel:
             if k == "IfStmt":
                 ks = X.kids(s)
                 c = f.bx(ks[0])
-                if c == ("atom", "shake(stats_.gen)") and len(ks) == 2:
-                    self.res["shakeCond"] = c
+                if "shake(" in lbx(c):
+                    # the shake branch: ANY condition that calls the functor.  The condition is part of
+                    # the skeleton (`.ifShake <BX>`): Props.lean compares it with the model's (the bare
+                    # call), Shake.lean interprets it (`shake(stats_.gen) && stats_.gen` skips the
+                    # re-evaluation of the best individual for a shake at generation 0)
+                    if len(ks) != 2:
+                        raise Refuse("evolution::run: the shake branch has an else part")
+                    if self.has_shake or where != "gen":
+                        raise Refuse("evolution::run: a second / misplaced shake branch")
+                    self.has_shake = True
                     self.res["shakeBody"] = self.toks(X.kids(ks[1]) if ks[1].get("kind") == "CompoundStmt" else [ks[1]], "shake")
-                    out.append("ifShake")
+                    out.append("ifShake " + lbx(c))
                     continue
                 if c == ("atom", "after_generation_callback_") and len(ks) == 2 and \
                         f.txt(ks[1]) == "after_generation_callback_(pop_, stats_)":
